@@ -130,7 +130,8 @@ FreshCon(H, F, s) ==
    pbase |-> LoadBefore(H, P, s + 1).d.v[1],
    rbase |-> LoadBefore(H, 0, s + 1).d.refs,
    reg |-> <<>>, work |-> <<>>, newb |-> {}, pval |-> <<>>, ideal |-> <<>>,
-   touched |-> {}, spon |-> FALSE, spidx |-> {}, spnew |-> {}, spfile |-> <<>>, sps |-> <<>>]
+   touched |-> {}, spon |-> FALSE, spidx |-> {}, spnew |-> {}, spfile |-> <<>>, sps |-> <<>>,
+   hw |-> {}, hr |-> {}]          \* blobs of which the application holds a writer / a reader handle open
 IsClean(c) == c.reg = <<>> /\ DOMAIN c.work = {} /\ c.newb = {} /\ c.pval = <<>> /\ ~c.spon
 \* the committed bytes in the connection's snapshot
 CView(c, b) == c.base[b]
@@ -144,8 +145,17 @@ IView(c, b) == IF b \in DOMAIN c.ideal THEN c.ideal[b] ELSE CView(c, b)
 Viewable(c, b) == b \in c.newb \cup c.spnew \/ c.ser[b] # 0
 RootRefs(c) == c.rbase \cup c.newb \cup c.spnew
 PViewOf(c) == IF c.pval # <<>> THEN c.pval[1] ELSE c.pbase
+NoOpen == con.hw = {} /\ con.hr = {}
 \* a connection without changes starts a new transaction (transaction.begin) before its first change
 Touch(c) == IF IsClean(c) /\ c.snap # LastTid(hist) THEN FreshCon(hist, files, LastTid(hist)) ELSE c
+
+
+\* The transaction boundary with file handles still open: invalidating a Blob (it was changed in the aborted
+\* transaction, or another connection has committed it) force-closes its files, removes the working copy and
+\* makes it a ghost; a reader of a blob that is not invalidated stays open.
+AfterBoundary(c) ==
+  LET f == FreshCon(hist, files, LastTid(hist))
+  IN [f EXCEPT !.touched = c.hw \cup c.hr, !.hr = {b \in c.hr : f.ser[b] = c.ser[b]}]
 
 (* ------------------------- derived: observations ------------------------ *)
 \* (all of these take the parts of the state as arguments: TLC evaluates F(x') much faster than F'.)
@@ -221,7 +231,7 @@ SameStore == UNCHANGED <<hist, files, old, dirty, leak, clk, packed, txn, aborte
 (* ------------------------ Blob and object API --------------------------- *)
 \* root['b<n>'] = Blob(); content written through open('w')
 CreateBlob(b, c0) ==
-  /\ Idle /\ b = nextb /\ b \in Blobs
+  /\ Idle /\ NoOpen /\ b = nextb /\ b \in Blobs
   /\ LET c == Touch(con) IN
      con' = [c EXCEPT !.work = Put(@, b, c0), !.ideal = Put(@, b, c0), !.newb = @ \cup {b},
                       !.reg = AddReg(@, 0), !.touched = @ \cup {b}]
@@ -236,14 +246,14 @@ Change(c, b, actual, ideal) ==
 
 \* blob.open('w').write(x)
 Rewrite(b, x) ==
-  /\ Idle /\ b \in Blobs
+  /\ Idle /\ NoOpen /\ b \in Blobs
   /\ LET c == Touch(con) IN Viewable(c, b) /\ con' = Change(c, b, <<x>>, <<x>>)
   /\ res' = OK("rewrite")
   /\ UNCHANGED nextb /\ SameStore /\ DerivedCon
 
 \* blob.open('a').write(x): the working copy starts as a copy of what the connection shows
 Append_(b, x) ==
-  /\ Idle /\ b \in Blobs
+  /\ Idle /\ NoOpen /\ b \in Blobs
   /\ LET c == Touch(con) IN
      /\ Viewable(c, b)
      /\ AView(c, b) \notin {Absent, Lost} /\ Len(AView(c, b)) < MaxLen /\ Len(IView(c, b)) < MaxLen
@@ -253,7 +263,7 @@ Append_(b, x) ==
 
 \* blob.consumeFile(path)
 ConsumeFile(b, x) ==
-  /\ Idle /\ b \in Blobs
+  /\ Idle /\ NoOpen /\ b \in Blobs
   /\ LET c == Touch(con) IN Viewable(c, b) /\ con' = Change(c, b, <<x>>, <<x>>)
   /\ res' = OK("consume")
   /\ UNCHANGED nextb /\ SameStore /\ DerivedCon
@@ -262,17 +272,45 @@ ConsumeFile(b, x) ==
 \* handler leaves the blob as it was - a working copy that was moved aside is moved back AND stays attached,
 \* without one nothing is attached and the object is not registered
 ConsumeFail(b) ==
-  /\ Idle /\ b \in Blobs
+  /\ Idle /\ NoOpen /\ b \in Blobs
   /\ LET c == Touch(con) IN Viewable(c, b) /\ con' = [c EXCEPT !.touched = @ \cup {b}]
   /\ res' = Out("consume", "FileNotFoundError")
   /\ UNCHANGED nextb /\ SameStore /\ DerivedCon
 
 ModifyP(v) ==
-  /\ Idle /\ v \in PVals
+  /\ Idle /\ NoOpen /\ v \in PVals
   /\ LET c == Touch(con) IN
      /\ v # PViewOf(c)
      /\ con' = [c EXCEPT !.pval = <<v>>, !.reg = AddReg(@, P)]
   /\ res' = OK("modify")
+  /\ UNCHANGED nextb /\ SameStore /\ DerivedCon
+
+\* f = blob.open('w'); f.write(x); f.flush() - and the handle stays open (one handle at a time in this model)
+OpenWrite(b, x) ==
+  /\ Idle /\ NoOpen /\ b \in Blobs
+  /\ LET c == Touch(con) IN
+     Viewable(c, b) /\ b \notin c.newb /\ con' = [Change(c, b, <<x>>, <<x>>) EXCEPT !.hw = {b}]
+  /\ res' = OK("open-w")
+  /\ UNCHANGED nextb /\ SameStore /\ DerivedCon
+\* f = blob.open('r') on committed data, kept open
+OpenRead(b) ==
+  /\ Idle /\ NoOpen /\ b \in Blobs
+  /\ LET c == Touch(con) IN
+     /\ Viewable(c, b) /\ b \notin c.newb /\ b \notin DOMAIN c.work /\ b \notin Range(c.reg)
+     /\ AView(c, b) \notin {Absent, Lost}
+     /\ con' = [c EXCEPT !.hr = {b}, !.touched = @ \cup {b}]
+  /\ res' = OK("open-r")
+  /\ UNCHANGED nextb /\ SameStore /\ DerivedCon
+CloseAll ==
+  /\ Idle /\ ~NoOpen
+  /\ con' = [con EXCEPT !.hw = {}, !.hr = {}]
+  /\ res' = OK("close")
+  /\ UNCHANGED nextb /\ SameStore /\ DerivedCon
+\* transaction.begin() in a connection without changes that holds a reader open
+Boundary ==
+  /\ Idle /\ IsClean(con) /\ con.hr # {}
+  /\ con' = AfterBoundary(con)
+  /\ res' = OK("begin")
   /\ UNCHANGED nextb /\ SameStore /\ DerivedCon
 
 (* ----------------------------- savepoints ------------------------------- *)
@@ -288,7 +326,7 @@ Flush(c) ==
                  !.reg = <<>>]
 
 Savepoint ==
-  /\ Idle /\ ~IsClean(con) /\ Len(con.sps) < MaxSp
+  /\ Idle /\ NoOpen /\ ~IsClean(con) /\ Len(con.sps) < MaxSp
   /\ LET f == Flush([con EXCEPT !.spon = TRUE]) IN
      con' = [f EXCEPT !.sps = Append(@, [idx |-> f.spidx, new |-> f.spnew, pval |-> f.pval,
                                          ideal |-> f.ideal, file |-> f.spfile])]
@@ -298,7 +336,7 @@ Savepoint ==
 \* Connection._rollback_savepoint: _abort() of what is registered, TmpStore.reset(position, index, creating);
 \* nothing is done about the savepoint blob files
 Rollback(k) ==
-  /\ Idle /\ k \in 1..Len(con.sps)
+  /\ Idle /\ NoOpen /\ k \in 1..Len(con.sps)
   /\ LET s == con.sps[k] IN
      con' = [con EXCEPT !.work = <<>>, !.reg = <<>>, !.newb = {}, !.spidx = s.idx, !.spnew = s.new,
                         !.pval = s.pval, !.ideal = s.ideal,
@@ -310,13 +348,13 @@ Rollback(k) ==
 \* transaction.abort() outside two-phase commit
 AbortTxn ==
   /\ Idle /\ ~IsClean(con)
-  /\ con' = FreshCon(hist, files, LastTid(hist))
+  /\ con' = AfterBoundary(con)
   /\ res' = OK("abort")
   /\ UNCHANGED nextb /\ SameStore /\ DerivedCon
 
 (* --------------------------- two-phase commit --------------------------- *)
 TpcBegin ==
-  /\ Idle /\ ~IsClean(con) /\ clk < MaxTid
+  /\ Idle /\ NoOpen /\ ~IsClean(con) /\ clk < MaxTid
   /\ clk' = clk + 1
   /\ txn' = [who |-> "c1", tid |-> clk + 1, phase |-> "begun", staged |-> <<>>, target |-> 0]
   /\ res' = OK("tpc_begin")
@@ -707,7 +745,7 @@ LoadableOnly(F, H2) == [k \in {k \in DOMAIN F : k \in BlobRevsOf(H2)} |-> F[k]]
 
 \* (\E x \in {e} makes TLC evaluate e once; a LET definition is re-evaluated at every use in an action)
 Pack(T) ==
-  /\ HasPack /\ Idle /\ aux.late = "none" /\ IsClean(con) /\ T \in 1..clk
+  /\ HasPack /\ Idle /\ NoOpen /\ aux.late = "none" /\ IsClean(con) /\ T \in 1..clk
   /\ \E r \in {IF IsMixin THEN LeanFilePack(hist, T) ELSE MappingPack(hist, T, TRUE, packed[2])} :
      LET done == r.out = "ok" IN
      \E h2 \in {IF done THEN Solid(r.h) ELSE hist} :
@@ -731,6 +769,9 @@ Next ==
   \/ \E b \in Blobs, x \in Atoms : Append_(b, x)
   \/ \E b \in Blobs, x \in Atoms : ConsumeFile(b, x)
   \/ \E b \in Blobs : ConsumeFail(b)
+  \/ \E b \in Blobs, x \in Atoms : OpenWrite(b, x)
+  \/ \E b \in Blobs : OpenRead(b)
+  \/ CloseAll \/ Boundary
   \/ \E v \in PVals : ModifyP(v)
   \/ Savepoint
   \/ \E k \in 1..MaxSp : Rollback(k)
@@ -759,6 +800,11 @@ ConsumeFileQ(b, x) == NoCopy(b) /\ (FewEdits \/ b \in Range(con.reg)) /\ Consume
 ModifyPQ(v) == con.pval = <<>> /\ FewEdits /\ ModifyP(v)
 \* a failing consumeFile matters after a change of the blob (once), or as the first call on it
 ConsumeFailQ(b) == res.call # "consume" /\ (b \in DOMAIN con.work \/ b \notin con.touched) /\ ConsumeFail(b)
+\* a handle is opened on a blob the transaction has not touched yet; a boundary is taken after another commit
+OpenWriteQ(b, x) == FewEdits /\ b \notin con.touched /\ OpenWrite(b, x)
+OpenReadQ(b) == b \notin con.touched /\ OpenRead(b)
+BoundaryQ == res.call \in {"other", "abort"} /\ Boundary
+Handles == (\E b \in Blobs, x \in Atoms : OpenWriteQ(b, x)) \/ (\E b \in Blobs : OpenReadQ(b)) \/ CloseAll \/ BoundaryQ
 EditQ ==
   \/ \E b \in Blobs, c0 \in Contents1 : CreateBlobQ(b, c0)
   \/ \E b \in Blobs, x \in Atoms : RewriteQ(b, x)
@@ -798,8 +844,8 @@ AbortTxnQ == (con.spon \/ Len(con.reg) + Cardinality(con.newb) >= 2) /\ res.call
 ConnAbortR == (txn.phase = "failed" \/ txn.tid % 2 = 0) /\ ConnAbort
 TpcAbortR == (txn.phase = "caborted" \/ txn.tid % 2 = 0) /\ TpcAbort
 
-NextCommit == EditQ \/ Tpc \/ ConnAbortQ \/ TpcAbortQ \/ OtherQ \/ Race
-NextAbort  == EditQ \/ Tpc \/ ConnAbortR \/ TpcAbortR \/ AbortTxnQ \/ OtherQ \/ WrongSome \/ Race
+NextCommit == EditQ \/ Tpc \/ ConnAbortQ \/ TpcAbortQ \/ OtherQ \/ Race \/ Handles \/ Other
+NextAbort  == EditQ \/ Tpc \/ ConnAbortR \/ TpcAbortR \/ AbortTxnQ \/ OtherQ \/ WrongSome \/ Race \/ Handles \/ AbortTxn
 NextUndo   == EditQ \/ Tpc \/ ConnAbortR \/ TpcAbortR \/ OtherQ \/ UndoAll \/ WrongSome
 NextPack   == EditQ \/ Tpc \/ ConnAbortQ \/ TpcAbortQ \/ OtherQ \/ UndoAll \/ PackSome
 NextSp     == EditQ \/ Tpc \/ ConnAbortR \/ TpcAbortR \/ AbortTxnQ \/ OtherQ \/ SpQ
